@@ -134,3 +134,5 @@ def replay(ob, repo, seed):
     return R.search(repo, f'{w}.{fn}', list(kinds), f, umax, imax, unit, seed)
 
 MANIFEST = {'engine': 'verus', 'technique': 'Verus (SMT) contracts on function bodies extracted from /repo each run; result == integer spec function, failure set pinned by iff', 'text': 'Deductive proof, unbounded: every fixed-point helper of gmsol-model (num.rs, utils.rs, fixed.rs) is extracted from the current tree and verified by Verus against a contract written from the statement: result equals floor/ceil/magnitude-ceil/clamp of the exact integer expression, and None/Err exactly on the stated failure set. Both instantiations (u128/20 decimals used on-chain, u64/9 used by the model tests). A failed obligation is replayed by a native search on the real function with a big-integer oracle.', 'note': 'Trusted: Verus+Z3, vstd integer specs, the num_traits-shaped prelude (proved against vstd), assumed ruint::U256 and u128::div_ceil contracts. Not verified: non-unit exponents of checked_pow_fixed (rust_decimal branch, cut).'}
+
+FALLBACK_OBS = ['C01.u128.' + f for f in ('checked_mul_div','checked_mul_div_ceil','checked_mul_div_with_signed_numerator','to_signed','to_opposite_signed','checked_signed_sub','checked_add_with_signed','checked_sub_with_signed','checked_mul_with_signed','as_divisor_to_round_up_magnitude_div','checked_round_up_div','bound_magnitude','usd_to_market_token_amount','market_token_amount_to_usd','apply_factor','div_to_factor','div_to_factor_signed','apply_exponent_factor','apply_factors','checked_pow_fixed','Fixed.checked_mul')] + ['C01.u64.' + f for f in ('checked_mul_div','checked_mul_div_ceil','checked_round_up_div','bound_magnitude','apply_factors')]
